@@ -1746,9 +1746,18 @@ def _oracle_relations(case):
         bad("rms:%s" % st, "rms peak: not within [0, abs], not sqrt(mean square) or not divided by Q with eqsine", rms, pri)
     # ---- dtype axis: the same numbers as float32 / int / list give the same spectrum
     s32 = np.asarray(sig, np.float32)
-    t32 = 0.0 if ic == "zero" else 1e-6
+    # the ic rule shifts a float32 signal in single precision (sig - sig[0], sig - mean): the shifted samples carry an
+    # absolute error of eps32 * |sig|; the oscillator is linear with gain <= ~2 max(1, Q) (times 1/wn, 1/wn^2 for the
+    # velocity / displacement types), so the response carries that absolute error times the gain - which can exceed
+    # 1e-6 of a response that is itself much smaller than the signal (Q near 0.5, offset signal)
+    s64 = np.atleast_2d(s32.astype(float).T).T
+    wn_ = 2 * math.pi * np.maximum(np.atleast_1d(np.asarray(freqs, float)), 1e-300)
+    gain = {"reldisp": 1.0 / wn_ ** 2, "pvelo": 1.0 / wn_, "relvelo": 1.0 / wn_}.get(st, np.ones_like(wn_))
     a, b = S(sig=s32), S(sig=s32.astype(float))
-    if a.shape != b.shape or np.max(np.abs(a - b)) > t32 * max(np.max(np.abs(b)), 1e-300):
+    tabs = 0.0 if ic == "zero" else 8 * 6e-8 * max(1.0, Q) * np.abs(s64).max(axis=0)[None, :] * gain[:, None]
+    t32 = 0.0 if ic == "zero" else 1e-6
+    if a.shape != b.shape or np.any(np.abs(np.atleast_2d(a.T).T.reshape(len(wn_), -1) - np.atleast_2d(b.T).T.reshape(len(wn_), -1))
+                                     > np.maximum(t32 * max(np.max(np.abs(b)), 1e-300), tabs)):
         bad("dtype:float32-signal:%s:ic=%s" % (st, ic), "a float32 signal gives another spectrum than the same numbers as float64", a, b)
     si = np.round(np.asarray(sig) * 4)
     a, b, c_ = S(sig=si.astype(int)), S(sig=si), S(sig=si.tolist())
